@@ -474,8 +474,10 @@ func (c *client) executeReadLoop(cborReader *cbor.Decoder) {
 	}()
 	// Loop and get all messages
 	// The message is generic, so we must find the type and decode the full message next.
-	var runtimeMessage DecodedRuntimeMessage
 	for {
+		// A fresh value for every message: the decoder leaves fields that are absent from a message untouched, so
+		// a reused value would carry the previous message's run ID or payload into a damaged message.
+		var runtimeMessage DecodedRuntimeMessage
 		if err := cborReader.Decode(&runtimeMessage); err != nil {
 			c.logger.Errorf(
 				"ATP client for steps '%s' failed to read or decode runtime message: %v",
